@@ -70,8 +70,37 @@ func (ctx *Context) Parse(value string) error {
 		return errors.New("正在执行中，无法执行新的语句")
 	}
 
-	p := newParser("", []byte(value), memoized(true))
+	p := ctx.newParserFor([]byte(value))
 	ctx.parser = p
+	ctx.Error = nil
+	ctx.NumOpCount = 0
+	ctx.detailCache = ""
+
+	// 设置错误消息语言
+	SetParseErrorLanguage(ctx.Config.ParseErrorLanguage)
+	_, err := p.parse(nil)
+	if err != nil {
+		ctx.Error = err
+		return err
+	}
+
+	// 字节码是边解析边生成的：在剩余文本(RestInput)上尝试过又被放弃的分支，可能已经写入了指令。
+	// 如果有剩余文本，就只对已消耗的前缀重新编译一次，保证结果只属于 Matched。
+	if p.pt.offset < len(p.data) {
+		if p2 := ctx.reparseConsumedPrefix(p); p2 != nil {
+			p = p2
+			ctx.parser = p
+		}
+	}
+
+	ctx.code = p.cur.data.code
+	ctx.codeIndex = p.cur.data.codeIndex
+
+	return nil
+}
+
+func (ctx *Context) newParserFor(data []byte) *parser {
+	p := newParser("", data, memoized(true))
 	d := p.cur.data
 	// p.debug = true
 
@@ -81,25 +110,31 @@ func (ctx *Context) Parse(value string) error {
 	d.Config = ctx.Config
 	d.ctx = ctx
 	d.pendingCustomDice = nil
-	ctx.Error = nil
-	ctx.NumOpCount = 0
-	ctx.detailCache = ""
 
 	// 开始解析，编译字节码
 	if ctx.Config.ParseExprLimit != 0 {
 		p.maxExprCnt = ctx.Config.ParseExprLimit
 	}
-	// 设置错误消息语言
-	SetParseErrorLanguage(ctx.Config.ParseErrorLanguage)
-	_, err := p.parse(nil)
-	if err != nil {
-		ctx.Error = err
-		return err
+	return p
+}
+
+// reparseConsumedPrefix compiles only the text that the first parse consumed.
+// It returns nil (keep the first result) when the prefix does not parse to
+// exactly itself on its own.
+func (ctx *Context) reparseConsumedPrefix(first *parser) *parser {
+	full := first.data
+	offset := first.pt.offset
+	for i := 0; i < 3 && offset > 0; i++ {
+		p2 := ctx.newParserFor(full[:offset])
+		if _, err := p2.parse(nil); err != nil {
+			return nil
+		}
+		if p2.pt.offset == offset {
+			p2.data = full // Matched/RestInput and the process text refer to the whole input
+			return p2
+		}
+		offset = p2.pt.offset
 	}
-
-	ctx.code = p.cur.data.code
-	ctx.codeIndex = p.cur.data.codeIndex
-
 	return nil
 }
 
